@@ -520,7 +520,9 @@ def py_value(src):
     import fractions
     import decimal
     import datetime
-    return eval(src, {"math": math, "collections": collections, "fractions": fractions,
+    import http
+    import numpy
+    return eval(src, {"math": math, "collections": collections, "fractions": fractions, "http": http, "numpy": numpy,
                       "decimal": decimal, "datetime": datetime, "float": float, "__builtins__": __builtins__})
 
 
